@@ -64,9 +64,9 @@ impl Shape {
         self.heights().iter().sum()
     }
     /// with the toy hasher the model runs about 6 times faster inside Coq than with SHA-256
-    /// (what remains is the assembly of the preimages)
+    /// (what remains is the assembly of the preimages), with the Gallina SHAKE256 about 4 times slower
     pub fn speed(&self) -> f64 {
-        if self.hash.starts_with("toy") { 6.0 } else { 1.0 }
+        if self.hash.starts_with("toy") { 6.0 } else if self.hash.starts_with("shake") { 0.25 } else { 1.0 }
     }
     pub fn keygen_cost(&self) -> f64 {
         tree_cost(self.n(), self.levels[0]) / 4000.0 / self.speed()
@@ -215,7 +215,8 @@ pub fn set_counter(blob: &[u8], c: u64) -> Vec<u8> {
     b
 }
 
-/// hashers the Coq model can execute: SHA-256 (Exec/Sha256.v) and the toy hasher (Exec/Toy.v)
+/// hashers the Coq model can execute: SHA-256 (Exec/Sha256.v), SHAKE256 (Exec/Keccak.v) and the toy
+/// hasher (Exec/Toy.v) -- all of them since SHAKE256 was added; kept as the single switch
 pub fn is_sha(hash: &str) -> bool {
-    hash.starts_with("sha256") || hash.starts_with("toy")
+    hash.starts_with("sha256") || hash.starts_with("toy") || hash.starts_with("shake256")
 }
